@@ -76,15 +76,49 @@ def verify(sid, checks, tier, seeds):
     return res
 
 
+RELATED = {
+    "bioconsert": ["C03", "C04", "C08", "C09", "C14", "C15"],
+    "dataset.py": ["C03", "C15", "C16", "C17", "C18", "C09"],
+    "ranking.py": ["C16", "C17", "C18", "C20", "C03"],
+    "element.py": ["C16", "C17", "C03"],
+    "utils.py": ["C18", "C16", "C17"],
+    "parcons": ["C03", "C04", "C05", "C06", "C14", "C15"],
+    "exact": ["C03", "C04", "C05", "C06", "C14", "C15"],
+    "pairwisebasedalgorithm": ["C03", "C04", "C05", "C06", "C08", "C09", "C15"],
+    "kwiksort": ["C03", "C11", "C09", "C15"],
+    "borda": ["C03", "C09", "C14", "C15", "C04"],
+    "pickaperm": ["C03", "C04", "C09", "C14", "C15"],
+    "copeland": ["C03", "C09", "C15"],
+    "consensus.py": ["C03", "C04", "C15"],
+}
+
+
+def related_checks(sid):
+    txt = open(os.path.join(SEEDED, sid, "patch.diff")).read()
+    out = [json.load(open(os.path.join(SEEDED, sid, "meta.json")))["property"]]
+    for key, pids in RELATED.items():
+        if key in txt:
+            for p in pids:
+                if p not in out:
+                    out.append(p)
+    return out
+
+
 def main():
     ap = argparse.ArgumentParser()
-    ap.add_argument("cmd", choices=["verify", "all"])
+    ap.add_argument("cmd", choices=["verify", "all", "matrix"])
     ap.add_argument("sid", nargs="?")
     ap.add_argument("--checks", default=None)
     ap.add_argument("--tier", default="quick")
     ap.add_argument("--seeds", default="0")
     a = ap.parse_args()
     seeds = [int(x) for x in a.seeds.split(",")]
+    if a.cmd == "matrix":
+        # every seeded change against the checks of the properties anchored in the files it touches
+        for sid in sorted(os.listdir(SEEDED)):
+            if os.path.isdir(os.path.join(SEEDED, sid)) and (not a.sid or sid.startswith(a.sid)):
+                verify(sid, related_checks(sid), a.tier, seeds)
+        return
     if a.cmd == "verify":
         verify(a.sid, a.checks.split(",") if a.checks else None, a.tier, seeds)
     else:
